@@ -51,6 +51,10 @@ struct Sched {
     honoured: usize,
 }
 static HONOURED: std::sync::atomic::AtomicUsize = std::sync::atomic::AtomicUsize::new(0);
+/// how long a thread waits for its grant before the schedule is given up (a granted thread that is blocked on a lock held by
+/// a parked thread never arrives); scenarios in which nothing can block use a long patience, so that a loaded machine does
+/// not make them give up
+static PATIENCE_MS: std::sync::atomic::AtomicU64 = std::sync::atomic::AtomicU64::new(80);
 
 static SCHED: Mutex<Option<Sched>> = Mutex::new(None);
 static CV: Condvar = Condvar::new();
@@ -91,7 +95,7 @@ fn point(_name: &'static str) {
             CV.notify_all();
             return;
         }
-        let (ng, timeout) = CV.wait_timeout(g, Duration::from_millis(80)).unwrap();
+        let (ng, timeout) = CV.wait_timeout(g, Duration::from_millis(PATIENCE_MS.load(std::sync::atomic::Ordering::Relaxed))).unwrap();
         g = ng;
         if timeout.timed_out() {
             // the granted thread is blocked on something else: give up on the schedule (reported in the trace)
@@ -847,6 +851,7 @@ fn run_case(line: &str) -> Option<String> {
             // nothing in this scenario can block, so a schedule reported as stuck means a thread was descheduled for longer
             // than the controller's patience (machine under load): run the case again
             let (n, order) = (n.num()?, order_of(order)?);
+            PATIENCE_MS.store(1500, std::sync::atomic::Ordering::Relaxed);
             let mut out = run_evict(n, order.clone());
             for _ in 0..5 {
                 if !out.ends_with("STUCK") {
@@ -854,6 +859,7 @@ fn run_case(line: &str) -> Option<String> {
                 }
                 out = run_evict(n, order.clone());
             }
+            PATIENCE_MS.store(80, std::sync::atomic::Ordering::Relaxed);
             Some(out)
         }
         ("bridgerace", [prog, pre, acts, order]) => {
